@@ -111,8 +111,10 @@ static void *x_producer(void *a) { x_work_t *w = (x_work_t *)a; uint64_t r = w->
 		case 3: dispatch_barrier_sync_f(w->q, NULL, x_item); break; } }
 	return NULL; }
 static void x_expect(const char *prop, long want) {
-	for (int k = 0; k < 20000 && atomic_load(&x_ran) < want; k++) usleep(500);
-	if (atomic_load(&x_ran) != want) FAIL(prop, "%ld of %ld items ran", atomic_load(&x_ran), want);
+	// progress-based, never elapsed-time based: give up only when the count has not moved for 10 s (a loaded machine is slow, not stuck)
+	long last = atomic_load(&x_ran); int idle = 0;
+	while (atomic_load(&x_ran) < want && idle < 20000) { usleep(500); long v = atomic_load(&x_ran); if (v != last) { last = v; idle = 0; } else idle++; }
+	if (atomic_load(&x_ran) != want) FAIL(prop, "%ld of %ld items ran (no further item ran for 10 s)", atomic_load(&x_ran), want);
 }
 static void scn_suspend_resume(int scale) {
 	cur_scn = "suspend_resume";
@@ -215,9 +217,11 @@ static lw_q_t *lw_owner(lw_thr_t *t, size_t i, lw_ev_t *e, long *off) {
 }
 static void lw_dump(const char *path) {
 	// quiescence: no operation recorded anywhere for a while, and every queue word stable
-	for (int k = 0; k < 100; k++) { uint64_t n1 = atomic_load(&lw_seq); usleep(50000); if (atomic_load(&lw_seq) == n1) break; }
+	// (four samples in a row without any operation: a thread descheduled in the middle of a drain on a loaded machine must not
+	// look like silence; bounded by 60 s of continuing activity, after which the queues are reported as not quiescent)
+	for (int k = 0, still = 0; k < 1200 && still < 4; k++) { uint64_t n1 = atomic_load(&lw_seq); usleep(50000); still = atomic_load(&lw_seq) == n1 ? still + 1 : 0; }
 	for (int i = 0; i < lw_nq; i++) lw_qs[i].final = lw_read_state(lw_qs[i].q);
-	atomic_store(&lw_on, 0); usleep(20000);
+	atomic_store(&lw_on, 0); usleep(100000);
 	for (int i = 0; i < lw_nq; i++) lw_qs[i].quiescent = lw_qs[i].final == lw_read_state(lw_qs[i].q);
 	FILE *f = fopen(path, "w"); if (!f) { perror(path); return; }
 	for (int i = 0; i < lw_nconst(); i++) fprintf(f, "C %d %llu\n", i, lw_const(i));
